@@ -1551,6 +1551,8 @@ def special_member_rules(fb, R, classes):
                     continue
                 if t in ids_ and f.nodes[t].get('q', '').rsplit('::', 1)[-1] == 'swap':
                     continue    # one exchange does both
+                if any(i in f.subtree(t) and f.nodes[i].get('q') == 'std::exchange' for i in ids_):
+                    continue    # m_x(std::exchange(other.m_x, invalid)): taken over and reset in one expression
                 h = U._helper_with_other(fb, f, f.nodes[t], ('this',), root) if t in ids_ and depth < 2 else None
                 good = good and h is not None and inval_ok(h[0], ('param', h[1]), depth + 1)[0]     # both happen inside the helper: decide the order there
             return good, tr_
